@@ -160,7 +160,52 @@ def is_prefix(a, b):
     return len(a) <= len(b) and b[:len(a)] == a
 
 
-def gen_case(rng, alloc, nops, dups=False, allow_nonfinite=False, maps=True, cross=True, focus=0.0):
+def render_json(v, rng=None):
+    """JSON text of a mirror value (finite doubles only); strings use short escapes / \\u00XX for specials, raw bytes >= 0x80"""
+    import struct
+    if v is None:
+        return b"null"
+    if v is True:
+        return b"true"
+    if v is False:
+        return b"false"
+    if isinstance(v, tuple):
+        if v[0] in "ui":
+            return str(v[1]).encode()
+        if v[0] == "d":
+            f = struct.unpack("<d", struct.pack("<Q", v[1]))[0]
+            return repr(f).encode()
+        out = bytearray(b'"')
+        for b in v[1]:
+            if b == 0x22:
+                out += b'\\"'
+            elif b == 0x5C:
+                out += b"\\\\"
+            elif b < 0x20:
+                out += b"\\u%04x" % b
+            else:
+                out.append(b)
+        return bytes(out) + b'"'
+    ws = (lambda: rng.choice([b"", b"", b" ", b"\n", b" " * 40])) if rng else (lambda: b"")
+    if v[0] == "arr":
+        return b"[" + b",".join(ws() + render_json(x, rng) + ws() for x in v[1]) + b"]"
+    return b"{" + b",".join(ws() + render_json(("s", k), rng) + ws() + b":" + ws() + render_json(x, rng) for k, x in v[1]) + b"}"
+
+
+def rand_tree(rng, depth=0):
+    r = rng.random()
+    if depth > 2 or r < 0.5:
+        l, v = lit(rng)
+        while l in ("arr", "obj"):
+            l, v = lit(rng)
+        return v
+    if r < 0.75:
+        return arr([rand_tree(rng, depth + 1) for _ in range(rng.randrange(0, 5))])
+    keys = rng.sample(KEYS, rng.randrange(0, 5))
+    return obj([[k, rand_tree(rng, depth + 1)] for k in keys])
+
+
+def gen_case(rng, alloc, nops, dups=False, allow_nonfinite=False, maps=True, cross=True, focus=0.0, parses=False):
     """returns (lines, expected) where expected[i] is a dict of the L1-observable fields of line i (or None)"""
     M = Mirror()
     lines, exp = ["dom-reset " + alloc], [{"ok": True}]
@@ -205,6 +250,20 @@ def gen_case(rng, alloc, nops, dups=False, allow_nonfinite=False, maps=True, cro
     while len(lines) < nops + 4 and attempts < nops * 6:
         attempts += 1
         r = rng.random()
+        if parses and rng.random() < 0.08:   # (re)parse text into a used document; afterwards no cross-document node move/swap
+            d = rng.choice([0, 1, 2])
+            v = rand_tree(rng)
+            text = render_json(v, rng)
+            cross = False
+            if rng.random() < 0.25 and len(text) > 1:
+                # a proper prefix of a container / string literal is never valid JSON; scalars get trailing garbage instead
+                text = text[: rng.randrange(1, len(text))] if (text[:1] in (b"[", b"{", b'"') and rng.random() < 0.6) else text + b" x"
+                M.docs[d] = None
+                emit(f"dom-parse {d} {text.hex()}", {"doc": "n", "_err": True})
+            else:
+                M.docs[d] = v
+                emit(f"dom-parse {d} {text.hex() or '-'}", dict(docs_fields(d), ok=True))
+            continue
         if r < 0.06:   # set
             d = rng.choice([0, 0, 1, 2])
             p = rng.choice(M.all_paths(d))
